@@ -148,8 +148,8 @@ def r2_pairing(ctx, prog):
     r.info('%d SoftHSM::C_* entry points examined for reachability of Token::logout' % n)
 
 
-def r3_validate(ctx, prog):
-    r = ctx.rule('C11.R3', 'every use of a handle-derived object is dominated by a NULL test and isValid()', floor=60, engine='E2')
+def r3_validate(ctx, prog, rule_id='C11.R3'):
+    r = ctx.rule(rule_id, 'every use of a handle-derived object is dominated by a NULL test and isValid()', floor=60, engine='E2')
     for f in sorted(prog.functions.values(), key=lambda f: (f['file'], f['line'])):
         if f.get('class') != 'SoftHSM' or not handle_objects(f):
             continue
@@ -398,6 +398,108 @@ def r6_store_key(ctx, prog, rule_id='C11.R6'):
         r.undecided('SoftHSM', 'sessionClosed', 'no caller of SessionObjectStore::sessionClosed found', file='', line=0)
 
 
+def r7_session_ids(ctx, prog):
+    """A session handle is the position of the Session in SessionManager's table plus one: getSession(h) returns entry h-1.  openSession must therefore give a new session exactly the
+    number of the entry it was stored in, for every pattern of free and used entries (holes left by closed sessions included) - otherwise the new handle denotes another, open session."""
+    import itertools
+    from engine.interp import St
+    from rules.c03 import _table_env, _table_cenv
+    r = ctx.rule('C11.R7', 'a new session gets the number of the table entry it is stored in; getSession reads that entry', floor=10, engine='E1 finite-domain, concrete small vector')
+    f = prog.fn('SessionManager::openSession')
+    ctx.analysed(f)
+    for occ in itertools.product([0, 1], repeat=3):
+        vals = [(7, 1) if x else None for x in occ]
+        cenv = _table_cenv(vals, {param_name(f, 4): 1, param_name(f, 0): 1, param_name(f, 1): 6, re.compile(r'getToken(@\d+)?\(\w+\)'): 1,
+                                  re.compile(r'isInitialized(@\d+)?\(\w+\)'): 1, re.compile(r'isSOLoggedIn(@\d+)?\(\w+\)'): 0})
+        o = Outcomes(f, prog, cenv=cenv, record_calls={'setHandle', 'push_back'})
+        o.LOOP_ROUNDS = 6
+        o.CAP = 256
+        o.go(St(env=_table_env(vals)))
+        r.paths += len(o.outcomes)
+        site = 'openSession, table %s' % ''.join('S' if x else '-' for x in occ)
+        okp = [oc for oc in o.outcomes if oc['ret'] == 'CKR_OK']
+        bad = None
+        for oc in okp:
+            pos = None
+            for e in oc['events']:
+                m = re.fullmatch(r'operator\[\]\(sessions,(\d+)\)', e[1]) if e[0] == 'write' else None
+                if m:
+                    pos = int(m.group(1))
+                elif e[0] == 'call' and e[1] == 'push_back':
+                    pos = len(vals)
+            hs = [e[2][1] for e in oc['events'] if e[0] == 'call' and e[1] == 'setHandle']
+            free = [i for i, x in enumerate(occ) if not x]
+            if pos is None or not hs:
+                bad = ('undecided', 'the stored position / the number given to the session was not seen', oc)
+            elif not str(hs[-1]).isdigit():
+                bad = ('undecided', 'the number given to the session is not concrete: %s' % hs[-1], oc)
+            elif int(hs[-1]) != pos + 1:
+                bad = ('violated', 'the session is stored in entry %d of the table but is given the number %s: its handle denotes entry %d - %s' % (
+                    pos, hs[-1], int(hs[-1]) - 1, 'another, open session' if int(hs[-1]) - 1 < len(occ) and occ[int(hs[-1]) - 1] else 'not the new session'), oc)
+            elif pos < len(occ) and occ[pos]:
+                bad = ('violated', 'the new session overwrites the used entry %d' % pos, oc)
+            if bad:
+                break
+        if not okp:
+            r.undecided(f['qname'], site, 'no successful path', file=f['file'], line=f['line'])
+        elif bad and bad[0] == 'undecided':
+            r.undecided(f['qname'], site, bad[1], file=f['file'], line=bad[2]['line'])
+        elif bad:
+            r.violation(f['qname'], site, bad[1], file=f['file'], line=bad[2]['line'], path=bad[2]['path'])
+        else:
+            r.ok(f['qname'], site, '%d successful paths' % len(okp), file=f['file'], line=f['line'])
+    g = prog.fn('SessionManager::getSession')
+    ctx.analysed(g)
+    vals = [(7, 1)] * 3
+    for h in (1, 2, 3):
+        o = Outcomes(g, prog, cenv=_table_cenv(vals, {param_name(g, 0): h}), record_calls=set())
+        o.LOOP_ROUNDS = 6
+        env0 = _table_env(vals)
+        env0[param_name(g, 0)] = str(h)
+        o.go(St(env=env0))
+        r.paths += len(o.outcomes)
+        rets = set()
+        for oc in o.outcomes:
+            x = str(oc['ret'])
+            m = re.fullmatch(r'operator\[\]\(sessions,\(?(\d+)-(\d+)\)?\)', x)
+            rets.add('E%d' % (int(m.group(1)) - int(m.group(2))) if m else x)
+        site = 'getSession(%d)' % h
+        if rets == {'E%d' % (h - 1)}:
+            r.ok(g['qname'], site, 'entry %d' % (h - 1), file=g['file'], line=g['line'])
+        elif all(re.fullmatch(r'E\d+|NULL|0|nullptr', x) for x in rets):
+            r.violation(g['qname'], site, 'returns %s instead of entry %d' % (sorted(rets), h - 1), file=g['file'], line=g['line'])
+        else:
+            r.undecided(g['qname'], site, 'returned value not concrete: %s' % sorted(rets), file=g['file'], line=g['line'])
+
+
+def r8_store_events(ctx, prog):
+    """SessionObjectStore reacts to three events; each must remove exactly the objects its own predicate names (the predicates' truth tables are C11.R5):
+    session closed -> removeOnSessionClose, all sessions closed -> removeOnAllSessionsClose, logout -> removeOnTokenLogout.  Decided by evaluating each handler with the three
+    predicates forced: it removes an object iff ITS predicate says so, whatever the other two say."""
+    r = ctx.rule('C11.R8', 'each SessionObjectStore event handler removes the objects its own predicate selects', floor=3, engine='E1 finite-domain evaluation')
+    pairs = {'sessionClosed': 'removeOnSessionClose', 'allSessionsClosed': 'removeOnAllSessionsClose', 'tokenLoggedOut': 'removeOnTokenLogout'}
+    for ev, pred in sorted(pairs.items()):
+        f = prog.fn('SessionObjectStore::' + ev)
+        ctx.analysed(f)
+        res = {}
+        for mine in (1, 0):
+            cenv = {re.compile(r'%s(@\d+)?\(.*\)' % p): (mine if p == pred else 1 - mine) for p in pairs.values()}
+            o = Outcomes(f, prog, cenv=cenv, record_calls={'erase', 'invalidate', 'deleteObject'})
+            o.LOOP_ROUNDS = 1
+            o.go()
+            r.paths += len(o.outcomes)
+            res[mine] = [oc for oc in o.outcomes if any(e[0] == 'call' for e in oc['events'])]
+        site = '%s removes by %s' % (ev, pred)
+        if res[1] and not res[0]:
+            r.ok(f['qname'], site, '%d removing paths when the predicate holds, none when only the others hold' % len(res[1]), file=f['file'], line=f['line'])
+        elif not res[1] and not res[0]:
+            r.undecided(f['qname'], site, 'no removal seen under either assignment (predicate inlined?)', file=f['file'], line=f['line'])
+        else:
+            r.violation(f['qname'], site, '%s: the handler %s' % (ev, 'removes objects that only another event\'s predicate selects, and keeps those its own predicate (%s) selects: the wrong set of session objects survives' % pred
+                                                              if not res[1] else 'also removes objects its own predicate (%s) does not select' % pred),
+                        file=f['file'], line=(res[0] or res[1])[0]['line'], path=(res[0] or res[1])[0]['path'])
+
+
 def run(ctx):
     prog = ctx.prog('ossl-file')
     r1_counter(ctx, prog)
@@ -406,6 +508,8 @@ def run(ctx):
     r4_registration(ctx, prog)
     r5_predicates(ctx, prog)
     r6_store_key(ctx, prog)
+    r7_session_ids(ctx, prog)
+    r8_store_events(ctx, prog)
 
 
 MUTANTS = [
